@@ -70,6 +70,9 @@ var c16Shared = map[string]string{
 	"sql.p": "if n % 3 == 0 {\n  add_key(q3, \"select * from t where p = 'C:\\\\'\")\n} elif n % 3 == 1 {\n  add_key(q3, \"select * from t where p = 'it\\\\'s' and a = 1\")\n} else {\n  add_key(q3, \"SELECT name FROM t WHERE path = 'C:\\\\' AND note = 1 -- it's\")\n}\nsql_cover(q3)\n",
 	// constant literals with literals inside, written into in place by every run (with point-dependent values) and read back
 	"nested.p": "a = [[0, 0], [1, 1]]\nm = {\"limits\": [10, 20], \"d\": {\"z\": 0}}\na[0][1] = n\nm[\"limits\"][0] = m[\"limits\"][0] + n\nm[\"d\"][\"z\"] = m[\"d\"][\"z\"] + 1\nfor s in a {\n  s[0] = s[0] + n\n}\nfor i = 0; i < 2; i = i + 1 {\n  t = [[i], {\"k\": [i]}]\n  t[0][0] = t[0][0] + n\n  t[1][\"k\"][0] = t[1][\"k\"][0] + 1\n  add_key(nt, t)\n}\nadd_key(na, a)\nadd_key(nm, m[\"limits\"])\nadd_key(nz, m[\"d\"][\"z\"])\n",
+	// the same grok text under two different outer alias definitions, the grok nested below its add_pattern
+	"galias1.p": "add_pattern(\"tok\", \"[0-9]+\")\nif true {\n  ok = grok(_, \"%{tok:w}\")\n  add_key(ga, w)\n}\n",
+	"galias2.p": "add_pattern(\"tok\", \"[a-z]+\")\nfor e in [1] {\n  if grok(_, \"%{tok:w}\") {\n    add_key(ga, w)\n  }\n}\n",
 	// a callee whose builtin fails at run time with an error built from load-time data
 	"dtfail.p": "add_key(c1, 1)\nuse(\"dtbad.p\")\nadd_key(c2, 2)\n",
 	"dtbad.p":  "add_key(ts3, 1700000000)\ndatetime(ts3, \"s\", \"no-such-layout-name\")\nadd_key(after_dt, 1)\n",
@@ -139,7 +142,7 @@ func (k c16) Run(c *mon.Ctx, workload string, i int64) {
 		c.Violate("shared-set-rejected", fmt.Sprint(errs), nil)
 		return
 	}
-	runnable := []string{"grok.p", "use.p", "mix.p", "lib2.p", "usefail.p", "usefail.p", "use3.p", "use5.p", "use6.p", "zones.p", "zones.p", "dtfail.p", "dtbad.p", "leak.p", "leak.p", "reader.p", "reader.p", "sql.p", "sql.p", "nested.p", "nested.p"}
+	runnable := []string{"grok.p", "use.p", "mix.p", "lib2.p", "usefail.p", "usefail.p", "use3.p", "use5.p", "use6.p", "zones.p", "zones.p", "dtfail.p", "dtbad.p", "leak.p", "leak.p", "reader.p", "reader.p", "sql.p", "sql.p", "nested.p", "nested.p", "galias1.p", "galias2.p"}
 	// generated sources for the parsers
 	var genSrcs []string
 	for j := 0; j < 20; j++ {
@@ -334,6 +337,24 @@ func (k c16) Run(c *mon.Ctx, workload string, i int64) {
 		wg.Wait()
 	}
 	computeReference()
+	// "the same result as when executed alone", in closed form for the two
+	// alias scripts: what one script's alias means is not decided by another
+	// script that happens to share the pattern text
+	for name, pat := range map[string]string{"galias1.p": "[0-9]+", "galias2.p": "[a-z]+"} {
+		re := regexp.MustCompile(pat)
+		for ps := int64(0); ps < nPoints; ps++ {
+			pt, _ := c16Point(gen.Rand(ps))
+			msg, _ := pt.Fields["message"].(string)
+			want := re.FindString(msg)
+			drive.RunV1(sharedSeq[name], pt, &drive.RunState{Budget: 200000})
+			got, _ := pt.Fields["ga"].(string)
+			input.PutPoint(pt)
+			if got != want {
+				report(bad{"run-differs-from-alone", fmt.Sprintf("script %s (alias tok = %s) on message %q stored ga=%q; alone it stores %q", name, pat, msg, got, want)})
+				break
+			}
+		}
+	}
 	seenDiff := map[string]bool{}
 	for _, o := range observed {
 		if o.parse {
